@@ -50,6 +50,11 @@ def send_clauses(single):
         ("C16.single-feeder", "not trace_any('calls', 'c', c[0] == 'ProtocolPort.handle' and isinstance(c[2], RawData))", "C16"),
         # C16.send.closed: the server's decision to close closes the transport
         ("C16.send.closed", "implies(isinstance(event, Closed), call_index('TCPServer._close') >= 0)", "C16,C07,C06"),
+        # C06 "closes after it" / C07 "the transport is closed": the server's decision to close is
+        # carried out on the transport first; telling the protocol (which tells the streams, which
+        # may have to wait for their applications' queues) comes after and cannot hold it up
+        ("C06.send.closed.transport-first", "implies(isinstance(event, Closed) and call_index('ProtocolPort.handle') >= 0, "
+         "call_index('TCPServer._close') >= 0 and call_index('TCPServer._close') < call_index('ProtocolPort.handle'))", "C06,C07,C16"),
     ]
 
 # ------------------------------------------------------------------------------------ asyncio
